@@ -1,3 +1,3 @@
 SPECIFICATION GenSpec
-INVARIANTS OnceEach DepsFirst BoundNoErr ChanBounded
+INVARIANTS OnceEach DepsFirst BoundAlways ChanBounded
 CHECK_DEADLOCK FALSE
